@@ -34,14 +34,22 @@ Init == live = <<>> /\ cur = [i \in Iters |-> -1] /\ nextId = 1 /\ l = 1
 New == /\ l <= Len(Trace) /\ Ev.op = "New"
        /\ live' = <<>> /\ cur' = [i \in Iters |-> -1] /\ nextId' = 1 /\ l' = l + 1
 
-Call == /\ l <= Len(Trace) /\ Ev.op # "New" /\ ~Has(Ev, "crash")
+\* The harness forgot an iterator without closing it (it stays open in the real map for ever).  Nothing the
+\* user can observe depends on a forgotten iterator, so the abstract state frees its id as Close does.
+Drop == /\ l <= Len(Trace) /\ Ev.op = "Drop"
+        /\ LET a == OM!Apply([live |-> live, cur |-> cur, nextId |-> nextId], [op |-> "Close", i |-> Ev.i])
+           IN /\ CheckRetention => RetentionOK(Ev)
+              /\ live' = a.s.live /\ cur' = a.s.cur /\ nextId' = a.s.nextId
+        /\ l' = l + 1
+
+Call == /\ l <= Len(Trace) /\ Ev.op \notin {"New", "Drop"} /\ ~Has(Ev, "crash")
         /\ LET a == OM!Apply([live |-> live, cur |-> cur, nextId |-> nextId], CallOf(Ev))
            IN /\ CheckReplies => Matches(Ev, a.res)
               /\ CheckRetention => RetentionOK(Ev)
               /\ live' = a.s.live /\ cur' = a.s.cur /\ nextId' = a.s.nextId
         /\ l' = l + 1
 
-Next == New \/ Call
+Next == New \/ Call \/ Drop
 Spec == Init /\ [][Next]_<<live, cur, nextId, l>>
 Accepted == AcceptByDiameter
 =============================================================================
